@@ -46,7 +46,7 @@ pub fn generated_base(seed: u64, b: u64) -> Base {
         best = gen::gen_sprite(&mut rng, &cfg);
     }
     let (mut sp, pp) = best;
-    if b % 4 == 1 {
+    if (b / 2) % 2 == 1 {
         // long names mixing 1- to 4-byte characters with a short ASCII prefix, so that character boundaries fall on
         // every byte offset modulo 4 (error messages, truncations and previews that slice names by bytes)
         let mut long_name = |rng: &mut Rng| -> String {
